@@ -523,6 +523,11 @@ def unit_compare(ctx, case, out, m):
     m0 = m[0]
     if "err" in out or "err" in m0:
         ctx.branch(f"unit:{k}:err:{out.get('err', 'none')}")
+        if k == "cover" and not cover_well_formed(case) and (("err" in out) != ("err" in m0)):
+            # malformed stub half grid (wrong row count / width): numpy may raise or broadcast depending on how the doubling
+            # is written; the model is indifferent there (outcomes are compared only when both raise or both return)
+            ctx.branch("excluded:cover_malformed_raise_vs_return")
+            return
         if out.get("err") != m0.get("err"):
             # gen_grid norm assertion: float sqrt against the exact squared bound may differ only at the boundary
             if k == "gencheck" and _gencheck_boundary(case):
@@ -602,12 +607,31 @@ def _gencheck_boundary(case):
     return False
 
 
+def cover_well_formed(case):
+    """a half grid as every supported algorithm hands it to SphereGrid4Dim._gen_grid: shape (N, 4), finite entries"""
+    half = case["half"]
+    return (case["N"] >= 1 and len(half) == case["N"] and all(len(r) == 4 for r in half)
+            and all(math.isfinite(float(x)) for r in half for x in r))
+
+
 def unit_oracle(ctx, case, out):
-    """the property's statement on the low-level functions, only where it leaves no room (rows with a Gap: every
-    coordinate exactly zero or larger than 1e-8)"""
+    """The property's statement on the low-level functions.
+
+    RULE: the oracle (ctx.fail) judges WELL-FORMED inputs only, i.e. inputs inside the property's quantifier:
+      * q_in_upper_sphere / hemisphere_quaternion_set: finite vectors (rows of exactly four numbers for the set) that have a
+        Gap (every coordinate exactly zero or larger than 1e-8 in size; non-zero where 'one of q, -q' is judged) - inside the
+        tolerance the statement 'first non-zero coordinate positive' leaves the answer to the code;
+      * SphereGrid4Dim._gen_grid and the getters on top of it: a half grid of shape (N, 4) with finite entries (and canonical
+        Gap rows for the only_upper clause); a stub half grid with another row count or width is malformed internal input that
+        no supported algorithm produces - whether the code raises or broadcasts there is outside the property;
+      * rotation of z: a finite non-zero quaternion;  names: the N = 1 clause only.
+    Malformed inputs are still compared with the model (ctx.corr, in unit_compare): a changed behaviour there breaks the tie,
+    it is never presented as an input on which the property fails."""
     k = case["kind"]
     if k == "upper":
-        if "err" in out:
+        if not all(math.isfinite(float(x)) for x in case["q"]):
+            ctx.branch("excluded:upper_non_finite")
+        elif "err" in out:
             ctx.fail("C07:exception", f"q_in_upper_sphere raised {out['err']}", case)
         elif gap_ok(case["q"]):
             if out["upper"] != exact_upper(case["q"]):
@@ -616,13 +640,17 @@ def unit_oracle(ctx, case, out):
         else:
             ctx.branch("excluded:upper_inside_tolerance")
     elif k == "hemiset" and "rows" in out:
-        if all(len(r) == 4 and gap_ok(r) and any(r) for r in case["Q"]):
+        if all(len(r) == 4 and all(math.isfinite(float(x)) for x in r) and gap_ok(r) and any(r) for r in case["Q"]):
             for q, c in zip(case["Q"], out["rows"]):
                 if not exact_upper(c) or not (list(map(float, c)) == [float(x) for x in q] or [float(x) for x in c] == [-float(x) for x in q]):
                     ctx.fail("C07:hemisphere", "hemisphere_quaternion_set does not return the canonical one of q, -q", case, None, out["rows"])
                     break
         else:
             ctx.branch("excluded:hemiset_inside_tolerance")
+    elif k == "cover" and not cover_well_formed(case):
+        ctx.branch("excluded:cover_malformed_half_grid")
+    elif k == "cover" and "err" in out:
+        ctx.fail("C07:exception", f"SphereGrid4Dim._gen_grid raised {out['err']} on a well-formed (N,4) half grid", case)
     elif k == "cover" and "full" in out:
         N = case["N"]
         F = np.array(out["full"])
@@ -640,7 +668,7 @@ def unit_oracle(ctx, case, out):
                 ctx.fail("C07:named_N1", "a grid requested by name with N=1 is not the z direction / identity rotation", case, exp, out)
             elif dims == 4 and out.get("full") != [[0.0, 0.0, 0.0, 1.0], [-0.0, -0.0, -0.0, -1.0]]:
                 ctx.fail("C07:named_N1", "double cover of the identity rotation is not [q; -q]", case, None, out)
-    elif k == "rotz" and "row" in out:
+    elif k == "rotz" and "row" in out and any(case["q"]) and all(math.isfinite(float(x)) for x in case["q"]):
         if abs(float(np.linalg.norm(out["row"])) - 1) > NORM_EPS:
             ctx.fail("C07:norm", "rotated z vector is not a unit vector", case, 1.0, out["row"])
 
